@@ -35,9 +35,19 @@ Definition run (fn : Z) (i : tree) : tree :=
       end
   end.
 
-(* fn 2: the decoded fields are the expected ones; everything else is model equality only *)
+(* same predicates as the coordinator's Pkg/All.v, except fn 1: a writer that returns an error ("(2)": oversized
+   login fields, writeString beyond its slot, ORDERBY which has no writer) is accepted here - the model has to
+   agree on it (model equality is checked on every line anyway) *)
 Definition spec (fn : Z) (i o : tree) : bool :=
   match fn with
-  | 2 => if t_int (t_nth 0 o) =? 0 then tree_eqb (t_nth 2 o) (t_nth 3 i) else true
-  | _ => true
+  | 1 => match o with TL [TI 0; TB _; TI ok] => ok =? 1 | TL [TI 2] => true | _ => false end
+  | 2 => tree_eqb o (TL [TI 0; TI (zlen (t_bytes (t_nth 1 i))); t_nth 3 i])
+  | 3 => match find_kind (t_int (t_nth 0 i)) kinds_b1 with
+         | None => false
+         | Some k =>
+             let model_valid := match k_dec k (t_nth 2 i) (t_bytes (t_nth 1 i)) with POk _ [] => true | _ => false end in
+             if model_valid then forallb (fun c => tree_eqb c (TI 1)) (t_list o) else true
+         end
+  | 4 => match o with TL [TI c] => negb (c =? -1) | _ => false end
+  | _ => false
   end.
